@@ -20,7 +20,7 @@ pub type DefaultAux = any_vec::mem::Heap;
 #[cfg(not(feature = "alloc"))]
 pub type DefaultAux = Stack<2048>;
 
-pub trait MX: MemBuilder + 'static {
+pub trait MX: MemBuilder + Default + 'static {
     const KIND: BK;
     const RESIZABLE: bool = false;
     const SIZEABLE: bool = false;
@@ -30,6 +30,8 @@ pub trait MX: MemBuilder + 'static {
     /// backend for auxiliary vectors B / C of an edge
     type Aux: MX;
     fn make() -> Self;
+    /// `AnyVec::new::<T>()` (needs `M: Default`)
+    fn new_default<T: Elem + SatisfyTraits<Tr>, Tr: ?Sized + Trait>() -> AnyVec<Tr, Self> where Self: Default { AnyVec::<Tr, Self>::new::<T>() }
     fn name() -> String;
     /// fixed capacity (in elements) for an element of `size` bytes, or None if resizable
     fn fixed_cap(_size: usize) -> Option<usize> { None }
@@ -70,7 +72,8 @@ macro_rules! resizable_impl {
         const RESIZABLE: bool = true;
         const SIZEABLE: bool = true;
         fn with_capacity<T: Elem + SatisfyTraits<Tr>, Tr: ?Sized + Trait>(cap: usize) -> AnyVec<Tr, Self> {
-            AnyVec::<Tr, Self>::with_capacity_in::<T>(cap, Self::make())
+            // alternate between the Default-based and the explicit-builder constructor
+            if cap % 2 == 0 { AnyVec::<Tr, Self>::with_capacity::<T>(cap) } else { AnyVec::<Tr, Self>::with_capacity_in::<T>(cap, Self::make()) }
         }
         fn cap_call<Tr: ?Sized + Trait>(v: &mut AnyVec<Tr, Self>, c: CapCall, n: usize) {
             match c {
